@@ -13,6 +13,10 @@ SHARDS = {'quick': 4, 'thorough': 16}
 N = {'quick': 90, 'thorough': 2500}      # rulesets per shard
 
 def gen_case(rng):
+    if rng.random() < 0.2:
+        from .. import trained
+        return {'train': trained.gen_train_case(rng, max_len_choices=(21,), coverages=(0.6, 1.0, 0.3)), 'spec': {'base': [], 'prince': [], 'pool': 'trained'},
+                'flags': {'skip_brute': True, 'all_lower': rng.random() < 0.3, 'folder': rng.choice(['Grammar', 'Grammar', 'Prince'])}}
     mg, xg, ml = rng.choice([(1, 4, 4), (2, 5, 3), (3, 6, 3), (3, 7, 4)])
     spec = rulesets.gen_spec(rng, min_groups=mg, max_groups=xg, max_len=ml)
     flags = {'skip_brute': rng.random() < 0.4, 'all_lower': rng.random() < 0.3,
@@ -22,7 +26,9 @@ def gen_case(rng):
     return {'spec': spec, 'flags': flags}
 
 def check_case(run, case, determinism=False):
-    name, path = gstream.materialise(case['spec'], 'c01')
+    name, path = gstream.materialise_case(run, case, 'c01')
+    if name is None:
+        return
     try:
         flags = gstream.flags_of(case)
         disk = oracles.Disk(path)
@@ -33,6 +39,8 @@ def check_case(run, case, determinism=False):
         index, total = gstream.oracle_index(lang)
         pcfg, mon = gstream.run_queue(path, flags)
         run.ev('POP', len(mon.pops))
+        if case.get('train') is not None:
+            case['spec']['base'] = [list(x) for x in disk.base_rows['Grammar']][:8]; case['spec']['prince'] = [list(x) for x in disk.base_rows['Prince']][:8]
         brief = {'base': case['spec']['base'] if flags['folder'] == 'Grammar' else case['spec']['prince'], 'flags': case['flags'],
                  'pool': case['spec'].get('pool')}
         for kind, k, msg in mon.problems[:3]:
